@@ -597,7 +597,11 @@ where
 /// A type used for more advanced ways of allocating a [`Gc`].
 pub struct GcBuilder<'gc, T: ?Sized, M = (), P = UnitPtrMeta> {
     ptr: GcPtr<T>,
-    _marker: PhantomData<(Invariant<'gc>, M, P)>,
+    // Unlike `Gc`, a builder is *written to* (it consumes a `T`), and the vtable of the allocation
+    // was chosen for the `T` it was created with, so it must be invariant in `T`: a covariant
+    // `GcBuilder<&'static X>` could be shrunk to a `GcBuilder<&'gc X>` and be handed a reference
+    // that the collector (which believes it holds a never-traced `&'static X`) knows nothing about.
+    _marker: PhantomData<(Invariant<'gc>, M, P, *mut T)>,
 }
 
 impl<'gc, T: ?Sized, M, P> Drop for GcBuilder<'gc, T, M, P> {
